@@ -25,6 +25,4 @@ package roaring
 //@ contract (*Bitmap).CountRange trusted pure props C07,C10,C12,C13,C28
 //@   requires b != nil
 //@   ensures n == cardRange(b.$set, start, end)
-//@ contract (*Bitmap).Contains trusted pure props C07,C10,C12,C13,C28
-//@   requires b != nil
-//@   ensures result <==> b.$set[v]
+// (*Bitmap).Contains is verified: see verif_contracts_bitmap.go
